@@ -332,6 +332,9 @@ func runC04(c *Ctx) {
 			}
 		}
 	}
+	// the journal as an include TREE (harness/c04trees.go): many files, big members, faults in members, perturbed schedules
+	bt.Flush()
+	runC04Trees(c)
 }
 
 // c04ReopenJournal walks a few asset/liability accounts through long lives: opened, booked in one or two commodities with
